@@ -54,6 +54,8 @@ type Row struct {
 	K int    // 0 benchmark line, 1 label "A: B", 2 label removal "A:", 3 other text (ignored by the format)
 	A string // benchmark name without the "Benchmark" prefix / label key / the text
 	B string // rest of the benchmark line / label value
+	// Tab (benchmark lines only): the fields are separated by tabs, not blanks
+	Tab bool
 }
 
 // File is one uploaded file.
@@ -118,6 +120,10 @@ const delim = "\r\n--" + boundary
 func (r Row) text() string {
 	switch r.K {
 	case 0:
+		if r.Tab {
+			// fields separated by tabs only: a line without a single blank
+			return "Benchmark" + r.A + "\t" + strings.ReplaceAll(r.B, " ", "\t")
+		}
 		return "Benchmark" + r.A + " " + r.B
 	case 1:
 		return r.A + ": " + r.B
